@@ -98,6 +98,12 @@ def gen_line(rng):
             if 0 < T < horizon:
                 tops.append([T, rng.choice([1, 2, 3, 5])])
         if tops:
+            if int(tops[0][0] * 8) % 2 == 0:
+                # an empty delivery (quantity 0) shortly before the first real one, and another with the last one: it
+                # must change nothing (no draw from the stream: the other lines stay what they were)
+                first = min(t for t, m in tops)
+                tops.append([max(0.125, first - 0.125), 0])
+                tops.append([max(t for t, m in tops), 0])
             st[0]['topups'] = sorted(tops)
             st[0]['topup_mode'] = rng.choice(['event', 'between'])
     # keep event counts bounded
